@@ -98,7 +98,8 @@ def generate(tape, tier="quick"):
                 i["info"] = ["from_output", tape.choice(c["outputs"])["name"]]
                 i["units"] = None
                 if tape.chance(1, 3):        # rule takes only the grid; units and time are given as values
-                    i["rule_units"] = tape.choice(["m", "km"])
+                    # ("open": the value None - the units are then taken from the linked output)
+                    i["rule_units"] = tape.choice(["m", "km", "open"])
                     i["rule_override"] = tape.chance(1, 2)     # ... or takes everything and overwrites the units
                 elif tape.chance(1, 3):      # rule takes time and units as selected fields; the grid is given as a value
                     i["rule_form"] = "fields"
@@ -148,6 +149,10 @@ def generate(tape, tier="quick"):
         sc["ping_order"] = tape.shuffle(list(range(n)))
         sc["schedule"] = [tape.draw(n) for _ in range(tape.rng_int(4, 24))]
         sc["window"] = tape.rng_int(2, 12)
+    for c in sc["components"]:
+        # metadata handed to try_connect() in the first connect call only (the helper keeps what it could not exchange)
+        if sum(1 for i in c["inputs"] if i["info"] == "connect") >= 1 and c.get("cache", True) and tape.chance(1, 2):
+            c["ex_once"] = True
     return sc
 
 RULE = RULE + (' A 1/40 share is family SH (sim/shared.py): 1-3 real CallbackGenerators on grids and units of their own feed the inputs of one real DebugConsumer; all inputs are declared with ONE request Info (grid unset, units unset or convertible), and the composition is built and run once or twice from the very same Info objects with different start times; oracles owned here: sh-run-raises (connect of an acyclic composition completes), sh-info.')
